@@ -11,7 +11,7 @@ use oracle::tables;
 use serde_json::json;
 
 pub const ID: &str = "C09";
-pub const FAMS: [&str; 8] = ["byte-at-position", "class-pattern", "two-bytes", "planted-foreign", "single-class-long", "three-bytes", "real-world-prefixes", "token-strings"];
+pub const FAMS: [&str; 9] = ["byte-at-position", "class-pattern", "two-bytes", "planted-foreign", "single-class-long", "three-bytes", "real-world-prefixes", "token-strings", "edit-session"];
 
 const BG: [&[u8]; 3] = [b"0123456789", b"AZ $%*+-./:K7", b"az,!\x00\x7f\x80\xff@[`{"];
 const REPS: [[u8; 2]; 3] = [[b'0', b'9'], [b'A', b':'], [b'a', 0xE9]];
@@ -76,6 +76,14 @@ pub fn jobs(ctx: &Ctx) -> Vec<Job> {
             jobs.push(Job { fam: FAMS[7], class, len, gen: crate::job::GEN_TOKENS, seed: mix(ctx.seed, k), level: Some((k % 4) as usize), mask: Some((k % 8) as usize), ..Default::default() });
         }
     }
+    // edit sessions ("typing into a QR generator"): one text of the form digits + alphanumerics + other bytes is
+    // shortened from the end one character at a time down to nothing and typed back, then edited in the middle; every
+    // intermediate text is built, on the same thread, in automatic mode. Consecutive inputs are prefixes /
+    // extensions / one-character edits of each other and cross the class boundaries in both directions.
+    for _ in 0..ctx.tier.pick(150usize, ctx.scale(6_000)) {
+        k += 1;
+        jobs.push(Job { fam: FAMS[8], class: 2, len: 0, seed: mix(ctx.seed, k ^ 0xed17), level: Some((k % 4) as usize), mask: Some((k % 8) as usize), ..Default::default() });
+    }
     // long strings of one class with one foreign byte planted at a random position
     let mut rng = Rng::new(ctx.seed ^ 0xc09);
     let n = ctx.tier.pick(6_000, ctx.scale(500_000));
@@ -129,7 +137,66 @@ fn payload_of(job: &Job) -> Vec<u8> {
     p
 }
 
+fn edit_session(ctx: &Ctx, st: &mut Stats, job: &Job) {
+    let mut rng = Rng::new(job.seed);
+    let (d, a, o) = (rng.below(26), rng.below(26), rng.below(8));
+    let mut text: Vec<u8> = Vec::new();
+    for _ in 0..d {
+        text.push(b'0' + rng.below(10) as u8);
+    }
+    for _ in 0..a {
+        text.push(tables::alnum_char(10 + rng.below(35)));
+    }
+    for _ in 0..o {
+        text.push(*rng.pick(b"abcxyz,;!_@#\x00\x80\xff"));
+    }
+    let full = text.clone();
+    let mut steps: Vec<Vec<u8>> = Vec::new();
+    steps.push(full.clone());
+    // delete from the end down to a random floor, type back
+    let floor = rng.below(full.len() + 1);
+    for l in (floor..full.len()).rev() {
+        steps.push(full[..l].to_vec());
+    }
+    for l in floor + 1..=full.len() {
+        steps.push(full[..l].to_vec());
+    }
+    // edits in the middle: replace, insert, delete one character
+    let mut cur = full.clone();
+    for _ in 0..6 {
+        if cur.is_empty() {
+            break;
+        }
+        let at = rng.below(cur.len());
+        match rng.below(3) {
+            0 => cur[at] = *rng.pick(b"0123456789AZ $%*+-./:az,\x80"),
+            1 => cur.insert(at, *rng.pick(b"059AZ :-/az,")),
+            _ => {
+                cur.remove(at);
+            }
+        }
+        steps.push(cur.clone());
+    }
+    let before = st.violations.len();
+    for s in steps {
+        let j = Job { fam: FAMS[1], payload: Some(s), ..job.clone() };
+        observe(ctx, st, &j);
+        st.count("edit_session_builds", 1);
+        if st.violations.len() > before {
+            for v in &mut st.violations[before..] {
+                v.detail = format!("{} (step of an edit session: the texts built before it on this thread were extensions / prefixes / one-character edits of it)", v.detail);
+                v.job = job.to_json();
+            }
+            return;
+        }
+    }
+    st.count("edit_sessions", 1);
+}
+
 pub fn observe(ctx: &Ctx, st: &mut Stats, job: &Job) {
+    if job.fam == FAMS[8] {
+        return edit_session(ctx, st, job);
+    }
     if job.fam == FAMS[5] && job.aux[3] == 0 {
         // expand the prefix job into its 256 strings (aux[3] = 1 marks an expanded single string, also used by replay)
         let base = job.payload();
@@ -207,7 +274,7 @@ pub fn run(ctx: &Ctx) -> Report {
     let st = pool::run(&jobs, ctx.remaining(), |st, job, _| observe(ctx, st, job));
     let mut rep = Report::new(
         st,
-        "jobs = all 256 byte values at every position of strings of length 1..8 over digit / alphanumeric / other backgrounds (27,648), all 3^L class patterns for L<=8 with two representative characters per class (19,682), all 256^2 two-byte strings (65,536), in the thorough tier ALL 256^3 three-byte strings (16,777,216), random strings of length <=1200 with one arbitrary byte planted at a random position; every build uses automatic mode; observed: QRCode.mode == oracle class (45-character set spelled out independently), the mode indicator decoded from the symbol, and the reference decode equals the input byte for byte; distinct key = payload hash; non-trivial = every distinct string",
+        "jobs = all 256 byte values at every position of strings of length 1..8 over digit / alphanumeric / other backgrounds (27,648), all 3^L class patterns for L<=8 with two representative characters per class (19,682), all 256^2 two-byte strings (65,536), in the thorough tier ALL 256^3 three-byte strings (16,777,216), random strings of length <=1200 with one arbitrary byte planted at a random position, the dictionary prefix sweep, token strings, and edit sessions (a digits+alphanumerics+bytes text deleted from the end and typed back character by character, then edited in the middle, every intermediate text built on the same thread); every build uses automatic mode; observed: QRCode.mode == oracle class (45-character set spelled out independently), the mode indicator decoded from the symbol, and the reference decode equals the input byte for byte; distinct key = payload hash; non-trivial = every distinct string",
     );
     rep.exhaustive = Some(true);
     rep.expected_sets = vec![("classes", 3), ("byte_values_seen", 256)];
